@@ -137,3 +137,49 @@ func c15IndirectRun(c *core.Ctx) {
 		}
 	}
 }
+
+// Family multi: one VAR statement declaring several variables. csvq declares them left to right (the manual's
+// grammar is a list of assignments), so a later initial value that names an earlier variable of the same statement
+// denotes that new variable - in a block it shadows the outer one from there on; the outer variable is untouched.
+func init() {
+	core.Extend("C15", "family multi: VAR statements with several assignments whose later initial values name earlier variables of the same statement, at the top level, in IF / WHILE / CASE blocks, in function bodies and in recursive invocations, with and without a same-named outer variable", c15MultiRun)
+}
+
+var c15Multi = []struct{ prog, want, wantErr string }{
+	{"VAR @a := 1, @b := @a + 1; PRINT @b; PRINT @a;", "2,1", ""},
+	{"VAR @a := 1; IF TRUE THEN VAR @a := 10, @b := @a + 1; PRINT @b; PRINT @a; END IF; PRINT @a;", "11,10,1", ""},
+	{"VAR @a := 1; VAR @i := 0; WHILE @i < 2 DO @i := @i + 1; VAR @a := @i * 10, @b := @a + 1, @c := @b + @a; PRINT @c; END WHILE; PRINT @a;", "21,41,1", ""},
+	{"VAR @a := 1; CASE WHEN TRUE THEN VAR @x := 5, @a := @x + 1, @y := @a + 1; PRINT @y; END CASE; PRINT @a;", "7,1", ""},
+	{"VAR @a := 1; DECLARE f FUNCTION (@p) AS BEGIN VAR @a := @p * 10, @b := @a + 1; RETURN @b; END; PRINT f(2); PRINT f(3); PRINT @a;", "21,31,1", ""},
+	{"DECLARE g FUNCTION (@n) AS BEGIN VAR @k := @n * 10, @s := @k; IF @n > 1 THEN @s := @s + g(@n - 1); END IF; RETURN @s; END; PRINT g(3);", "60", ""},
+	{"VAR @a := 1; IF TRUE THEN VAR @b := @a + 1, @a := 10; PRINT @b; PRINT @a; END IF; PRINT @a;", "2,10,1", ""},
+	{"IF TRUE THEN VAR @a := 10, @b := @a + 1; END IF; PRINT @b;", "", "undeclared"},
+}
+
+func c15MultiRun(c *core.Ctx) {
+	dir := core.Scratch("c15multi")
+	for i, tc := range c15Multi {
+		if !c.Mine(int64(i)) {
+			continue
+		}
+		for run := 0; run < 2; run++ {
+			env := drv.NewText(dir)
+			env.Tx.Flags.SetQuiet(true)
+			r := env.Exec(tc.prog)
+			env.Close()
+			got := strings.Join(strings.Fields(strings.TrimSpace(r.Out)), ",")
+			c.Eval(fmt.Sprintf("multi:%d", i), true)
+			ok := r.Panic == nil && got == tc.want
+			if tc.wantErr == "" {
+				ok = ok && r.Err == nil
+			} else {
+				ok = ok && r.Err != nil && strings.Contains(r.Err.Error(), tc.wantErr)
+			}
+			if !ok {
+				c.Violate("multi: variables declared by one VAR statement are not declared left to right in the current block",
+					fmt.Sprintf("%s\ncsvq prints %q (err=%v panic=%v), expected %q, error containing %q", tc.prog, got, r.Err, r.Panic, tc.want, tc.wantErr),
+					map[string]any{"family": "indirect", "program": tc.prog, "expect": strings.Split(tc.want, ",")})
+			}
+		}
+	}
+}
